@@ -4,8 +4,11 @@ import (
 	"bufio"
 	"fmt"
 	"regexp"
+	"runtime"
 	"strconv"
 	"strings"
+	"sync"
+	"sync/atomic"
 	"time"
 
 	"github.com/ozontech/file.d/cfg"
@@ -16,7 +19,9 @@ import (
 	"github.com/ozontech/file.d/plugin/action/join_template"
 	"github.com/ozontech/file.d/plugin/action/join_template/template"
 	"github.com/ozontech/file.d/plugin/input/k8s"
+	"github.com/ozontech/file.d/plugin/input/fake"
 	"github.com/ozontech/file.d/plugin/input/k8s/meta"
+	"github.com/ozontech/file.d/plugin/output/devnull"
 	insaneJSON "github.com/ozontech/insane-json"
 	"github.com/prometheus/client_golang/prometheus"
 	"go.uber.org/zap"
@@ -45,6 +50,7 @@ func init() {
 	execs["c15.join"] = execC15Join
 	execs["c15.jt"] = execC15JT
 	execs["c15.k8s"] = execC15K8s
+	execs["c15.pipe"] = execC15Pipe
 	gens["C15"] = genC15
 }
 
@@ -648,6 +654,424 @@ func genC15(w *bufio.Writer, rng *hx.Rng, tier string) {
 	genC15Join(w, rng, tier)
 	genC15JT(w, rng, tier)
 	genC15K8s(w, rng, tier)
+	genC15Pipe(w, rng, tier)
+}
+
+// ---------------------------------------------------------------- real pipeline (trace cases)
+//
+//	c15.pipe <nprocs> <negate> <max> <startRe> <contRe> <nstreams> stream…
+//	    stream = <sourceID> <streamName> <n> item…
+//	    item   = P | E <id> <startOK> <contOK> <tree>     (tree = {"log":…,"stream":<name>,"id":<id>})
+//	result = <ncalls> call… <nstreams> (<nout> <tree>…)… ok
+//	    call = <instance> (T <tag> | E <id>) R <res> <nprop> (<tag> <tree>)… (N | E <tag> <tree>)
+//
+// A real pipeline (fake input, devnull output, one `join` action) runs with <nprocs> processors.
+// Every processor's join instance is the REAL plugin wrapped by a recorder that logs each Do
+// call (in one global order), the Propagate calls made during it, and its answer; the output
+// plugin logs what arrives per stream. One feeder goroutine per stream; `P` = the feeder waits
+// until the stream is quiet (if the instance is mid-run that means: until the stream time-out
+// has been delivered). tag = index of the stream in the case. Time-outs the scheduler adds on
+// its own are simply part of the observed trace.
+
+type c15PipeCall struct {
+	inst    int
+	timeout bool
+	tag     int
+	id      int
+	res     pipeline.ActionResult
+	props   []string // "<tag> <tree>"
+	self    string   // tree after the call
+}
+
+type c15Rec struct {
+	mu       sync.Mutex
+	calls    []*c15PipeCall
+	ninst    int
+	tagOf    map[string]int // "<sourceID>/<streamName>" -> tag
+	outs     [][]string     // per tag: trees in arrival order
+	nout     int
+	lastRes  map[int]pipeline.ActionResult // per tag: answer to the stream's latest call
+	doneEv   map[int]int                   // per tag: regular events seen by Do
+	timeouts map[int]int                   // per tag: time-out calls seen
+	cur      map[int]*c15PipeCall          // per instance: call in progress
+}
+
+func c15StreamKey(e *pipeline.Event) string {
+	return strconv.FormatUint(uint64(e.SourceID), 10) + "/" + string(e.StreamNameBytes())
+}
+
+type c15RecCfg struct {
+	inner pipeline.AnyConfig
+	rec   *c15Rec
+}
+
+type c15RecPlugin struct {
+	inner pipeline.ActionPlugin
+	rec   *c15Rec
+	idx   int
+}
+
+type c15RecCtl struct {
+	inner pipeline.ActionPluginController
+	w     *c15RecPlugin
+}
+
+func (c *c15RecCtl) Propagate(e *pipeline.Event) {
+	r := c.w.rec
+	r.mu.Lock()
+	tag := r.tagOf[c15StreamKey(e)]
+	if call := r.cur[c.w.idx]; call != nil {
+		call.props = append(call.props, strconv.Itoa(tag)+" "+jt.FromNode(e.Root.Node).Tok())
+	}
+	r.mu.Unlock()
+	c.inner.Propagate(e)
+}
+func (c *c15RecCtl) Spawn(p *pipeline.Event, n []*insaneJSON.Node) { c.inner.Spawn(p, n) }
+func (c *c15RecCtl) IncMaxEventSizeExceeded(lvs ...string)         { c.inner.IncMaxEventSizeExceeded(lvs...) }
+
+func (w *c15RecPlugin) Start(config pipeline.AnyConfig, params *pipeline.ActionPluginParams) {
+	c := config.(*c15RecCfg)
+	w.rec = c.rec
+	w.rec.mu.Lock()
+	w.idx = w.rec.ninst
+	w.rec.ninst++
+	w.rec.mu.Unlock()
+	p2 := *params
+	p2.Controller = &c15RecCtl{inner: params.Controller, w: w}
+	w.inner.Start(c.inner, &p2)
+}
+
+func (w *c15RecPlugin) Stop() { w.inner.Stop() }
+
+func (w *c15RecPlugin) Do(e *pipeline.Event) pipeline.ActionResult {
+	r := w.rec
+	call := &c15PipeCall{inst: w.idx, timeout: e.IsTimeoutKind()}
+	r.mu.Lock()
+	call.tag = r.tagOf[c15StreamKey(e)]
+	if !call.timeout {
+		call.id = e.Root.Dig("id").AsInt()
+	}
+	r.calls = append(r.calls, call) // global order = order of Do entries
+	r.cur[w.idx] = call
+	r.mu.Unlock()
+
+	res := w.inner.Do(e)
+
+	r.mu.Lock()
+	call.res = res
+	if !call.timeout {
+		call.self = jt.FromNode(e.Root.Node).Tok()
+		r.doneEv[call.tag]++
+	} else {
+		r.timeouts[call.tag]++
+	}
+	r.lastRes[call.tag] = res
+	r.cur[w.idx] = nil
+	r.mu.Unlock()
+	return res
+}
+
+type c15PipeItem struct {
+	pause bool
+	id    int
+	tree  *jt.Tree
+}
+
+type c15PipeStream struct {
+	source int
+	name   string
+	items  []c15PipeItem
+}
+
+var c15PipeSeq atomic.Int64
+
+func execC15Pipe(t *hx.Toks) string {
+	nprocs := t.Int()
+	negate := t.Bool()
+	max := t.Int()
+	startRe := string(t.Bytes())
+	contRe := string(t.Bytes())
+	nstreams := t.Int()
+	if t.Err != nil || nprocs < 1 || nprocs > 8 {
+		return "bad-case"
+	}
+	sre, err1 := regexp.Compile(startRe)
+	cre, err2 := regexp.Compile(contRe)
+	if err1 != nil || err2 != nil {
+		return "bad-case"
+	}
+	var streams []c15PipeStream
+	nevents := 0
+	seen := map[int]bool{}
+	for s := 0; s < nstreams && t.Err == nil; s++ {
+		st := c15PipeStream{source: t.Int(), name: string(t.Bytes())}
+		n := t.Int()
+		for i := 0; i < n && t.Err == nil; i++ {
+			switch t.Next() {
+			case "P":
+				st.items = append(st.items, c15PipeItem{pause: true})
+			case "E":
+				id := t.Int()
+				sOK, cOK := t.Bool(), t.Bool()
+				tree := jt.Parse(t)
+				if t.Err != nil || seen[id] {
+					return "bad-case"
+				}
+				seen[id] = true
+				found, _, val := c15Field(tree, []string{"log"})
+				if found && (sre.MatchString(val) != sOK || cre.MatchString(val) != cOK) {
+					return "bad-case"
+				}
+				_, isStr, sname := c15Field(tree, []string{"stream"})
+				_, _, sid := c15Field(tree, []string{"id"})
+				if !isStr || sname != st.name || sid != strconv.Itoa(id) {
+					return "bad-case"
+				}
+				st.items = append(st.items, c15PipeItem{id: id, tree: tree})
+				nevents++
+			default:
+				return "bad-case"
+			}
+		}
+		streams = append(streams, st)
+	}
+	if t.Err != nil || !t.Done() {
+		return "bad-case"
+	}
+
+	rec := &c15Rec{
+		tagOf: map[string]int{}, outs: make([][]string, len(streams)),
+		lastRes: map[int]pipeline.ActionResult{}, doneEv: map[int]int{}, timeouts: map[int]int{},
+		cur: map[int]*c15PipeCall{},
+	}
+	for i, st := range streams {
+		key := strconv.Itoa(st.source) + "/" + st.name
+		if _, dup := rec.tagOf[key]; dup {
+			return "bad-case"
+		}
+		rec.tagOf[key] = i
+	}
+
+	info, err := fd.DefaultPluginRegistry.GetActionByType("join")
+	if err != nil {
+		return "bad-case"
+	}
+	_, config := info.Factory()
+	jc := config.(*join.Config)
+	jc.Field = "log"
+	jc.Start = cfg.Regexp("/" + startRe + "/")
+	jc.Continue = cfg.Regexp("/" + contRe + "/")
+	jc.MaxEventSize = max
+	jc.Negate = negate
+	if err := cfg.Parse(jc, nil); err != nil {
+		return "bad-case"
+	}
+
+	settings := &pipeline.Settings{
+		Capacity:            1024,
+		MaintenanceInterval: time.Second * 5,
+		EventTimeout:        5 * time.Millisecond,
+		Antispam:            pipeline.AntispamSettings{Threshold: pipeline.DefaultAntispamThreshold},
+		AvgEventSize:        256,
+		MetaCacheSize:       32,
+		StreamField:         "stream",
+		Decoder:             "json",
+		Metric: &pipeline.MetricSettings{
+			HoldDuration:        pipeline.DefaultMetricHoldDuration,
+			MaxLabelValueLength: pipeline.DefaultMetricMaxLabelValueLength,
+		},
+	}
+	name := "c15_" + strconv.FormatInt(c15PipeSeq.Add(1), 10)
+	p := pipeline.New(name, settings, prometheus.NewRegistry(), zap.NewNop().WithOptions(zap.WithFatalHook(c15FatalHook{})))
+	in, _ := fake.Factory()
+	input := in.(*fake.Plugin)
+	p.SetInput(&pipeline.InputPluginInfo{
+		PluginStaticInfo:  &pipeline.PluginStaticInfo{Type: "fake"},
+		PluginRuntimeInfo: &pipeline.PluginRuntimeInfo{Plugin: input},
+	})
+	out, _ := devnull.Factory()
+	output := out.(*devnull.Plugin)
+	p.SetOutput(&pipeline.OutputPluginInfo{
+		PluginStaticInfo:  &pipeline.PluginStaticInfo{Type: "devnull"},
+		PluginRuntimeInfo: &pipeline.PluginRuntimeInfo{Plugin: output},
+	})
+	output.SetOutFn(func(e *pipeline.Event) {
+		rec.mu.Lock()
+		tag := rec.tagOf[c15StreamKey(e)]
+		rec.outs[tag] = append(rec.outs[tag], jt.FromNode(e.Root.Node).Tok())
+		rec.nout++
+		rec.mu.Unlock()
+	})
+	p.AddAction(&pipeline.ActionPluginStaticInfo{
+		PluginStaticInfo: &pipeline.PluginStaticInfo{
+			Type: "join",
+			Factory: func() (pipeline.AnyPlugin, pipeline.AnyConfig) {
+				pl, _ := info.Factory()
+				return &c15RecPlugin{inner: pl.(pipeline.ActionPlugin)}, nil
+			},
+			Config: &c15RecCfg{inner: jc, rec: rec},
+		},
+		MatchMode: pipeline.MatchModeAnd,
+	})
+	// processor count = GOMAXPROCS*2 at Start (1 when parallelism is disabled)
+	old := runtime.GOMAXPROCS(0)
+	if nprocs == 1 {
+		p.DisableParallelism()
+	} else {
+		runtime.GOMAXPROCS(nprocs / 2)
+	}
+	p.Start()
+	runtime.GOMAXPROCS(old)
+
+	deadline := func(d time.Duration, cond func() bool) bool {
+		end := time.Now().Add(d)
+		for time.Now().Before(end) {
+			rec.mu.Lock()
+			ok := cond()
+			rec.mu.Unlock()
+			if ok {
+				return true
+			}
+			time.Sleep(2 * time.Millisecond)
+		}
+		return false
+	}
+	busy := func(tag int) bool {
+		r, ok := rec.lastRes[tag]
+		return ok && (r == pipeline.ActionHold || r == pipeline.ActionCollapse)
+	}
+	stuck := false
+	var wg sync.WaitGroup
+	for tag, st := range streams {
+		wg.Add(1)
+		go func(tag int, st c15PipeStream) {
+			defer wg.Done()
+			fed := 0
+			for k, it := range st.items {
+				if it.pause {
+					// quiet = everything fed so far went through Do and no run is open
+					if !deadline(5*time.Second, func() bool { return rec.doneEv[tag] == fed && !busy(tag) }) {
+						stuck = true
+					}
+					continue
+				}
+				input.In(pipeline.SourceID(st.source), "src"+strconv.Itoa(st.source), pipeline.NewOffsets(int64(k+1), nil), it.tree.JSON())
+				fed++
+			}
+		}(tag, st)
+	}
+	wg.Wait()
+	// the end: every event seen, no run open (pending runs are closed by the stream time-out),
+	// and everything that was sent on has arrived at the output
+	done := deadline(8*time.Second, func() bool {
+		n, want := 0, 0
+		for tag := range streams {
+			n += rec.doneEv[tag]
+			if busy(tag) {
+				return false
+			}
+		}
+		for _, c := range rec.calls {
+			want += len(c.props)
+			if c.res == pipeline.ActionPass && !c.timeout {
+				want++
+			}
+		}
+		return n == nevents && rec.nout == want
+	})
+	p.Stop()
+	if !done || stuck {
+		return "stuck"
+	}
+
+	rec.mu.Lock()
+	defer rec.mu.Unlock()
+	var sb strings.Builder
+	fmt.Fprintf(&sb, "%d", len(rec.calls))
+	for _, c := range rec.calls {
+		if c.timeout {
+			fmt.Fprintf(&sb, " %d T %d", c.inst, c.tag)
+		} else {
+			fmt.Fprintf(&sb, " %d E %d", c.inst, c.id)
+		}
+		fmt.Fprintf(&sb, " R %s %d", c15ResTok(c.res), len(c.props))
+		for _, pr := range c.props {
+			fmt.Fprintf(&sb, " %s", pr)
+		}
+		if c.timeout {
+			sb.WriteString(" N")
+		} else {
+			fmt.Fprintf(&sb, " E %d %s", c.tag, c.self)
+		}
+	}
+	fmt.Fprintf(&sb, " %d", len(streams))
+	for _, o := range rec.outs {
+		fmt.Fprintf(&sb, " %d", len(o))
+		for _, tr := range o {
+			fmt.Fprintf(&sb, " %s", tr)
+		}
+	}
+	sb.WriteString(" ok")
+	return sb.String()
+}
+
+func genC15Pipe(w *bufio.Writer, rng *hx.Rng, tier string) {
+	ncases := 24
+	if tier == "thorough" {
+		ncases = 320
+	}
+	names := []string{"stdout", "stderr", "a"}
+	for i := 0; i < ncases; i++ {
+		c := &c15JoinCfg{
+			negate:  rng.Chance(1, 5),
+			max:     []int{0, 0, 8, 64}[rng.Intn(4)],
+			startRe: []string{`^a`, `^[ab]`, `a$`, `^(a|bc)`}[rng.Intn(4)],
+			contRe:  []string{`^b`, `^\s`, `c`, `^[^a]`, `.`}[rng.Intn(5)],
+			path:    []string{"log"},
+		}
+		c.compile()
+		nprocs := []int{1, 2, 2, 4, 4}[rng.Intn(5)]
+		nstreams := rng.Range(2, 6)
+		fmt.Fprintf(w, "c15.pipe %d %s %d %s %s %d", nprocs, hx.B(c.negate), c.max, hx.Enc([]byte(c.startRe)), hx.Enc([]byte(c.contRe)), nstreams)
+		id := 0
+		used := map[string]bool{}
+		for s := 0; s < nstreams; s++ {
+			var src int
+			var name string
+			for {
+				src = rng.Range(1, 3)
+				name = names[rng.Intn(len(names))]
+				if !used[strconv.Itoa(src)+"/"+name] {
+					break
+				}
+			}
+			used[strconv.Itoa(src)+"/"+name] = true
+			n := rng.Range(3, 40)
+			var sb strings.Builder
+			cnt := 0
+			pauses := 0
+			for k := 0; k < n; k++ {
+				if pauses < 2 && rng.Chance(1, 12) {
+					sb.WriteString(" P")
+					cnt++
+					pauses++
+					continue
+				}
+				id++
+				v := c15RandValue(rng)
+				obj := jt.O()
+				if v != nil {
+					obj.Obj = append(obj.Obj, jt.F("log", v))
+				}
+				obj.Obj = append(obj.Obj, jt.F("stream", jt.S(name)), jt.F("id", jt.Nu(strconv.Itoa(id))))
+				_, _, val := c15Field(obj, c.path)
+				fmt.Fprintf(&sb, " E %d %s %s %s", id, hx.B(c.sre.MatchString(val)), hx.B(c.cre.MatchString(val)), obj.Tok())
+				cnt++
+			}
+			fmt.Fprintf(w, " %d %s %d%s", src, hx.Enc([]byte(name)), cnt, sb.String())
+		}
+		w.WriteByte('\n')
+	}
 }
 
 // ---------------------------------------------------------------- k8s MultilineAction
